@@ -991,6 +991,8 @@ from mlmverif.selfcheck import B, OK  # noqa: E402
 _F = 'chainables/tree_fns.py'
 _T = 'chainables/transform.py'
 VARIANTS = [
+    OK('pending-sizes-through-a-local', 'utils/iter_utils.py',
+       "      batch_sizes += [_batch_size(column) for column in batch]", "      sizes_of_this_batch = [_batch_size(column) for column in batch]\n      batch_sizes += sizes_of_this_batch"),
     OK('copy-and-set-through-a-local', 'chainables/tree.py',
        "    return self.set(keys, values, in_place=False)", "    updated = self.set(keys, values, in_place=False)\n    return updated"),
     OK('outputs-view-through-a-local', 'chainables/tree_fns.py',
